@@ -1,6 +1,7 @@
 mod c13;
 mod kill;
 mod model;
+mod threads;
 
 fn main() {
     let args: Vec<String> = std::env::args().skip(1).collect();
